@@ -429,4 +429,9 @@ WITNESSES = [
      "old": "\tspki_r->asn = key_e->asn;\n\tspki_r->socket = key_e->socket;", "new": "\tspki_r->asn = key_e->asn;"},
     {"id": "C10.w-swap-copies-the-callback", "rule": "C10.R6", "file": HT,
      "old": "\tmemcpy(&b->list, &tmp_list, sizeof(tmp_list));\n", "new": "\tmemcpy(&b->list, &tmp_list, sizeof(tmp_list));\n\tb->update_fp = a->update_fp;\n"},
+    {"id": "C10.w-get_all-stops-at-a-foreign-entry", "rule": "C10.R2", "file": HT,
+     "old": "\t/* Build the result array */\n\twhile (result_bucket) {", "new": "\t/* Build the result array */\n\twhile (result_bucket && result_bucket->key == hash) {"},
+    {"id": "C10.w-src_remove-steps-twice-after-a-removal", "rule": "C10.R3", "file": HT,
+     "old": "\t\t\tlrtr_free(entry);\n\t\t\tspki_table_notify_clients(spki_table, &record, false);\n\t\t} else {",
+     "new": "\t\t\tlrtr_free(entry);\n\t\t\tspki_table_notify_clients(spki_table, &record, false);\n\t\t\tif (current_node)\n\t\t\t\tcurrent_node = current_node->next;\n\t\t} else {"},
 ]
